@@ -71,6 +71,9 @@ def theorems_of(mod):
     if not os.path.exists(path):
         return []
     src = open(path, encoding='utf-8').read()
+    # comments out (keeping line numbers): doc-strings may contain the word `theorem`
+    src = re.sub(r'/-.*?-/', lambda m: '\n' * m.group(0).count('\n'), src, flags=re.S)
+    src = re.sub(r'--.*', '', src)
     ns = NAMESPACE_RE.search(src)
     prefix = (ns.group(1) + '.') if ns else ''
     out = []
